@@ -77,7 +77,7 @@ def mandatory_bins(tier):
     b += ["block_key%d" % k for k in (16, 24, 32)]
     b += ["mode_" + m for m in ("ecb", "cbc", "cfb", "ofb", "ctr")]
     b += ["cfb_seg%d" % s for s in range(1, 17)]
-    b += ["block_mixed_call_sequence_on_one_object", "adapter_objects_used_by_concurrent_threads"]
+    b += ["block_mixed_call_sequence_on_one_object", "adapter_objects_used_by_concurrent_threads", "key_buffer_reused_for_the_next_key", "one_block_cipher_object_used_by_concurrent_threads"]
     b += ["cbc_default_iv", "cfb_default_iv", "ofb_default_iv", "ctr_default_counter"]
     b += ["ctr_wraparound", "ctr_carry", "all_compositions", "empty_chunk", "feeder_pkcs7", "feeder_none", "stream_bs1", "stream_bs15", "stream_bs16", "stream_bs17", "stream_bs8192", "stream_with_short_reads",
           "adapter_history", "adapter_shared_key_iv", "adapter_trailing_zero_plaintext", "adapter_len_mod16_0", "adapter_len_mod16_1", "adapter_len_mod16_15", "adapter_explicit_iv", "adapter_default_iv", "adapter_long_data", "global_state_unchanged"]
@@ -369,6 +369,24 @@ def run_shard(spec, ctx):
                     ctx.mon("AES.decrypt", seq.count("D"))
                 except Exception as e:
                     ctx.violation("block_cipher_raises", {"exc": fmt_exc(e), "seq": "".join(seq)}, rp)
+            if i % 4 == 1:
+                # the key handed over in a mutable buffer that the caller re-uses for the next key
+                try:
+                    k1, k2 = rng.randbytes(kl), rng.randbytes(kl)  # k1: a key no object has used so far
+                    kb = bytearray(k1)
+                    o1 = A(kb) if i % 8 == 1 else A(memoryview(kb))
+                    r1 = bytes(o1.encrypt(blk))
+                    kb[:] = k2
+                    o2 = A(kb)
+                    r2 = bytes(o2.encrypt(blk))
+                    r3 = bytes(A(bytes(k2)).decrypt(blk))
+                    ctx.bin("key_buffer_reused_for_the_next_key")
+                    ctx.mon("AES.encrypt", 2)
+                    ctx.mon("AES.decrypt")
+                    if r1 != ossl.aes_ecb(k1, blk, True) or r2 != ossl.aes_ecb(k2, blk, True) or r3 != ossl.aes_ecb(k2, blk, False):
+                        ctx.violation("block_result_depends_on_a_key_used_by_another_object:key%d" % kl, {"first_ok": r1 == ossl.aes_ecb(k1, blk, True), "second_ok": r2 == ossl.aes_ecb(k2, blk, True)}, dict(rp, key1=k1.hex(), key2=k2.hex()))
+                except Exception as e:
+                    ctx.violation("block_cipher_raises", {"exc": fmt_exc(e), "key_type": "bytearray"}, rp)
             if i == 0:
                 ctx.sample({"kind": "block", "key": key, "block": blk, "ct": ct})
         return
@@ -544,6 +562,26 @@ def run_shard(spec, ctx):
                 elif r[1] != (exp, padded, exp[-16:]):
                     what = "encrypt" if r[1][0] != exp else "decrypt" if r[1][1] != padded else "mac"
                     ctx.violation("adapter_result_differs_under_concurrent_use:" + what, {"same_key": spec["same_key"], "threads": nthreads, "len": len(datas[i])}, rp)
+        # ONE block-cipher / ECB object (no chaining state) shared by the threads
+        codes2 = yieldrun.code_objects_of(ns.aes.AES, ns.aes.AESModeOfOperationECB)
+        for rnd in range(spec["rounds"]):
+            key = rng.randbytes((16, 24, 32)[rnd % 3])
+            obj = ns.aes.AES(key) if rnd % 2 else ns.aes.AESModeOfOperationECB(key)
+            blks = [rng.randbytes(16) for _ in range(3)]
+
+            def body2(i):
+                return lambda: (bytes(obj.encrypt(blks[i])), bytes(obj.decrypt(blks[i])))
+
+            res, y = yieldrun.run_concurrently([body2(i) for i in range(3)], codes2, sleep=0.0001, max_yields=6000)
+            total_y += y
+            ctx.ev(3)
+            ctx.bin("one_block_cipher_object_used_by_concurrent_threads")
+            ctx.mon("AES.encrypt", 3)
+            ctx.mon("AES.decrypt", 3)
+            for i, r in enumerate(res):
+                if r is not None and (r[0] == "exc" or r[1] != (ossl.aes_ecb(key, blks[i], True), ossl.aes_ecb(key, blks[i], False))):
+                    ctx.violation("block_result_differs_when_one_object_is_used_by_concurrent_threads", {"object": type(obj).__name__, "keylen": len(key), "result": r[1] if r[0] == "exc" else "wrong block"}, {"kind": "threads", "same_key": spec["same_key"]})
+                    break
         ctx.mon("line_yields_injected", total_y)
         ctx.sample({"kind": "threads", "rounds": spec["rounds"], "line_yields": total_y})
         return
